@@ -27,6 +27,15 @@ operator (``evaluator-and-3vl``, ``evaluator-mod-sign``, ``evaluator-notin-null`
 the evaluator get structural names (``evaluate-update-unloaded-criteria-attr``,
 ``update-set-stores-expired-sentinel``, ``update-set-cross-reference-order``).
 
+Widened input classes: string values with line breaks / tabs / unicode separators in the
+part a LIKE wildcard covers (WHERE and SET); WHERE / SET values given as named
+``bindparam()`` (scalar and expanding) whose values arrive with ``Session.execute(stmt,
+params)``; columns that change on every UPDATE without being named in it (``ts``: trigger
++ ``server_onupdate=FetchedValue()``, ``ov``: onupdate SQL expression, ``pv``: Python-side
+onupdate) on >= 2 matched, loaded in-session objects.  Besides the ``__dict__`` comparison a
+few objects per case get their unloaded / expired attributes accessed, which must reload
+values equal to the row.
+
 Guards (documented behaviour the oracle must not demand more than):
 * fully expired objects / unloaded attributes have no in-memory value: only ``__dict__``
   is compared; an object that the strategy expired wholesale is not required to have left
@@ -406,6 +415,10 @@ class Rig:
                     ctx.seen("evaluate_raise_types", type(e).__name__)
                 rows = {r[0]: r for r in s.connection().exec_driver_sql(
                     "SELECT %s FROM %s" % (", ".join(self.rig.ITEM_COLS), tname))}
+                if kind == "update":
+                    tsi = self.rig.ITEM_COLS.index("ts")
+                    ctx.count("generated_columns_changed_by_update",
+                              sum(1 for o, i in pairs if "ts" in pre.get(i, {}) and i in rows and rows[i][tsi] != pre[i]["ts"]))
                 desc = {"kind": kind, "crit": crit, "set": setspec}
                 nontriv = rowcount is not None and 0 < rowcount < self.nrows
                 if nontriv:
@@ -416,8 +429,9 @@ class Rig:
                 if sync == "auto" and crit is not None and UNEVALUABLE & set(_kinds(crit).split(",")):
                     ctx.count("auto_fallback_to_fetch_cases")
                 bad = self.judge(s, pairs, rows, pre)
-                if not bad and raised is None:
-                    bad = self.judge_reload(s, pairs, rows)
+                self.ncase = getattr(self, "ncase", 0) + 1
+                if not bad and raised is None and (kind == "update" or self.ncase % 4 == 0):
+                    bad = self.judge_reload(s, pairs, rows, limit=2)
                 if sample:
                     ctx.sample({"steps": steps, "sync": sync, "variant": variant, "table": table,
                                 "rowcount": rowcount, "raised": type(raised).__name__ if raised else None})
@@ -767,7 +781,7 @@ def run(ctx):
                                  sample=(ctx.shard == 0 and idx in (9, 1201)))
         ctx.count("family_done")
         # ---- part B: SET expressions x load variants -----------------------
-        crits_b = [None, ("cmp", "eq", X(), ("param", "px", 2)), ("sw", "a", False, None), ("cmp", "gt", X(), L(0)), ("cmp", "le", Y(), L(0)), ("isnull", True, "x"),
+        crits_b = [None, ("cmp", "eq", X(), ("param", "px", 2)), ("cmp", "gt", X(), L(0)), ("cmp", "le", Y(), L(0)), ("isnull", True, "x"),
                    ("or", (("cmp", "eq", X(), L(2)), ("isnull", False, "y"))),
                    ("sw", "a", False, None)]
         for si, setspec in enumerate(SETS_BASIC + SETS_MORE):
@@ -788,7 +802,7 @@ def run(ctx):
                     rig.run_case([("delete", crit, ())], sync, variant, "ret" if ci % 2 else "noret", rng)
         ctx.count("variants_done")
         # ---- part C: random trees, sequences -------------------------------
-        nrand = ctx.pick({"quick": 700, "thorough": 12000})
+        nrand = ctx.pick({"quick": 400, "thorough": 12000})
         evaluable = [a for a in full if a[0] not in ("between", "distinct", "like", "contains")]
         for k in range(nrand):
             if not ctx.budget_ok():
